@@ -140,8 +140,8 @@ LATE = {
             "GetFlightInfo + DoGet vs POST /sql for statements of all shapes, > 4096 rows, empty results and errors, modes auto/force/off, 1-3 nodes: same schema, rows, decision, trailer row count; malformed tickets refused.",
             "Rust Flight client (arrow-flight/tonic) only."),
     "C35": ("exploration", "front-door monitor on in-process nodes",
-            "503 before/after-failed load on /sql and /fragment; Arrow/JSON/CSV bodies decode to ctx.sql's rows; auto mode local with a reason for single member / non-mergeable shapes; no 200 after a distributed failure (differing peer copy, dead peer still listed).",
-            "Mergeability of a shape is taken from the generator, not from the engine's planner."),
+            "503 before/after-failed load on /sql and /fragment; Arrow/JSON/CSV bodies decode to ctx.sql's rows; auto mode answers locally with a reason on a single member and after the peers left, every distributed answer names >= 2 shards and equals the single-node answer; no 200 after a distributed failure (differing peer copy, dead peer still listed).",
+            "Whether a shape is exactly mergeable is judged by the distributed answer equalling the single-node one, not by a syntactic classification."),
     "C36": ("exploration", "offline checker: observations log judged by a python3-stdlib model of the documented Trino values",
             "About 150 call shapes of 120 functions x hostile argument pools with NULLs through a column path and a literal path.",
             "The model declines where documentation/stdlib cannot decide; unmodelled functions are listed."),
